@@ -81,7 +81,9 @@ fn c01(leaf: &mut Leaf, lines: &[Line], ds: &[IDisposal]) {
     }
     let q: Vec<vx::B> = agg.iter().map(|(k, v)| vx::eq_l(&format!("qty of leg {k:?}"), v.0, sagg[k].0)).collect();
     leaf.ob("C01.leg-quantity", &vx::and(&q));
-    if !has_events(lines) {
+    // line orders that leave same-day trades unmerged (known finding F-C06) change per-lot costs, not which shares are
+    // identified with which acquisition: quantities are still compared, costs are not
+    if !has_events(lines) && !unmerged_order(lines) {
         let c: Vec<vx::B> = agg.iter().map(|(k, v)| vx::eq_l(&format!("cost of leg {k:?}"), v.1, sagg[k].1)).collect();
         leaf.ob("C01.leg-cost", &vx::and(&c));
         // proceeds and gain per disposal
@@ -223,4 +225,29 @@ fn c05_err(leaf: &mut Leaf, sk: &Skeleton, lines: &[Line], msg: &str) {
             leaf.ob_bool("C05.error-names-uncovered-sale", false, "error message names no (security, date) of a SELL line");
         }
     }
+}
+
+/// after a stable sort by date: two same-day same-kind trade lines of one security separated by another line
+fn unmerged_order(lines: &[Line]) -> bool {
+    let mut v: Vec<&Line> = lines.iter().collect();
+    v.sort_by_key(|l| l.day);
+    for i in 0..v.len() {
+        if !matches!(v[i].kind, Kind::Buy | Kind::Sell) {
+            continue;
+        }
+        let mut gap = false;
+        for j in i + 1..v.len() {
+            if v[j].day != v[i].day {
+                break;
+            }
+            if v[j].kind == v[i].kind && v[j].ticker == v[i].ticker {
+                if gap {
+                    return true;
+                }
+            } else {
+                gap = true;
+            }
+        }
+    }
+    false
 }
